@@ -1,1 +1,697 @@
-// harnesses for fs (included into /repo/src/fs.rs under cfg(kani))
+// Harnesses for src/fs.rs (C04, C05, C07, C10, C11, C12, C13, C20). Included as `crate::fs::verif` under cfg(kani).
+use super::*;
+use crate::verif_support::dev::{LogDev, TotDev, WinDev, FATW};
+use crate::verif_support::spec;
+
+pub(crate) type Fs<D, TP> = FileSystem<D, TP, LossyOemCpConverter>;
+
+/// Volume geometry used to build a FileSystem value directly (mount is checked separately, see mount_*).
+#[derive(Clone, Copy)]
+pub(crate) struct Geo {
+    pub ft: FatType,
+    pub bps: u16,
+    pub spc: u8,
+    pub reserved: u16,
+    pub fats: u8,
+    pub spf: u32,
+    pub root_entries: u16,
+    pub total_clusters: u32,
+    pub ext_flags: u16,
+    pub fs_info_sector: u16,
+    pub status: u8,
+}
+
+impl Geo {
+    pub(crate) fn small(ft: FatType, total_clusters: u32) -> Self {
+        let is32 = ft == FatType::Fat32;
+        Geo { ft, bps: 512, spc: 1, reserved: if is32 { 8 } else { 1 }, fats: 2, spf: 1, root_entries: if is32 { 0 } else { 16 },
+              total_clusters, ext_flags: 0, fs_info_sector: 1, status: 0 }
+    }
+    pub(crate) fn root_sectors(&self) -> u32 { (u32::from(self.root_entries) * 32 + u32::from(self.bps) - 1) / u32::from(self.bps) }
+    pub(crate) fn first_data(&self) -> u32 { u32::from(self.reserved) + u32::from(self.fats) * self.spf + self.root_sectors() }
+    pub(crate) fn total_sectors(&self) -> u32 { self.first_data() + self.total_clusters * u32::from(self.spc) }
+    pub(crate) fn fat_base(&self) -> u64 { u64::from(self.reserved) * u64::from(self.bps) }
+    pub(crate) fn fat_stride(&self) -> u64 { u64::from(self.spf) * u64::from(self.bps) }
+    pub(crate) fn root_base(&self) -> u64 { (u64::from(self.reserved) + u64::from(self.fats) * u64::from(self.spf)) * u64::from(self.bps) }
+    pub(crate) fn cluster_off(&self, c: u32) -> u64 { (u64::from(self.first_data()) + u64::from(c - 2) * u64::from(self.spc)) * u64::from(self.bps) }
+    pub(crate) fn limit(&self) -> u64 { u64::from(self.total_sectors()) * u64::from(self.bps) }
+    pub(crate) fn cluster_size(&self) -> u32 { u32::from(self.bps) * u32::from(self.spc) }
+    pub(crate) fn bpb(&self) -> BiosParameterBlock {
+        let is32 = self.ft == FatType::Fat32;
+        let ts = self.total_sectors();
+        BiosParameterBlock {
+            bytes_per_sector: self.bps, sectors_per_cluster: self.spc, reserved_sectors: self.reserved, fats: self.fats,
+            root_entries: self.root_entries,
+            total_sectors_16: if !is32 && ts < 0x10000 { ts as u16 } else { 0 },
+            media: 0xF8,
+            sectors_per_fat_16: if is32 { 0 } else { self.spf as u16 },
+            total_sectors_32: if !is32 && ts < 0x10000 { 0 } else { ts },
+            sectors_per_fat_32: if is32 { self.spf } else { 0 },
+            extended_flags: self.ext_flags,
+            root_dir_first_cluster: if is32 { 2 } else { 0 },
+            fs_info_sector: if is32 { self.fs_info_sector } else { 0 },
+            backup_boot_sector: if is32 { 6 } else { 0 },
+            reserved_1: self.status,
+            ext_sig: 0x29,
+            ..BiosParameterBlock::default()
+        }
+    }
+}
+
+/// Build a FileSystem directly from a geometry (what FileSystem::new would cache), with a chosen device, clock,
+/// FS-info cache and "last status byte written" state.
+pub(crate) fn mk_fs<D: ReadWriteSeek, TP>(dev: D, g: &Geo, tp: TP, update_accessed_date: bool, fs_info: FsInfoSector,
+                                         cur: FsStatusFlags) -> Fs<D, TP> {
+    FileSystem {
+        disk: RefCell::new(dev),
+        options: FsOptions { update_accessed_date, oem_cp_converter: LossyOemCpConverter::new(), time_provider: tp, strict: true },
+        fat_type: g.ft,
+        bpb: g.bpb(),
+        first_data_sector: g.first_data(),
+        root_dir_sectors: g.root_sectors(),
+        total_clusters: g.total_clusters,
+        fs_info: RefCell::new(fs_info),
+        current_status_flags: Cell::new(cur),
+    }
+}
+
+pub(crate) fn any_ft() -> FatType {
+    let sel: u8 = kani::any();
+    match sel % 3 { 0 => FatType::Fat12, 1 => FatType::Fat16, _ => FatType::Fat32 }
+}
+fn w(ft: FatType) -> u8 { match ft { FatType::Fat12 => 0, FatType::Fat16 => 1, FatType::Fat32 => 2 } }
+
+pub(crate) fn any_fs_info(total: u32) -> FsInfoSector {
+    // values as they are after FsInfoSector::validate_and_fix + deserialize (hint never 0/1, in range or None)
+    let free: Option<u32> = kani::any();
+    if let Some(n) = free { kani::assume(n <= total); }
+    let next: Option<u32> = kani::any();
+    if let Some(n) = next { kani::assume(n >= 2 && n <= total + 2); }
+    FsInfoSector { free_cluster_count: free, next_free_cluster: next, dirty: kani::any() }
+}
+
+pub(crate) fn win_for(g: &Geo) -> WinDev {
+    WinDev::new(g.limit(), g.fat_base(), g.fat_stride(), if g.ext_flags & 0x80 == 0 { g.fats.min(2) } else { g.fats.min(2) }, g.root_base())
+}
+
+// ------------------------------------------------------------------------------------------- FS-info sector (C04, C05, C07, C20)
+
+/// C04/C05: FsInfoSector::serialize writes the three signatures and the two counters at the specification's
+/// offsets (0, 484, 488, 492, 508) of a 512-byte sector, zeroes elsewhere; deserialize returns the same values.
+#[kani::proof]
+#[kani::unwind(514)]
+fn fsinfo_roundtrip() {
+    let free: Option<u32> = kani::any();
+    let next: Option<u32> = kani::any();
+    if let Some(n) = free { kani::assume(n != 0xFFFF_FFFF); }
+    if let Some(n) = next { kani::assume(n != 0xFFFF_FFFF && n >= 2); }
+    let s = FsInfoSector { free_cluster_count: free, next_free_cluster: next, dirty: true };
+    let mut dev = TotDev::<512>::new([0xAA; 512]);
+    assert!(s.serialize(&mut dev).is_ok());
+    assert!(!dev.oob && dev.pos == 512);
+    let d = &dev.data;
+    let word = |o: usize| (d[o] as u32) | ((d[o + 1] as u32) << 8) | ((d[o + 2] as u32) << 16) | ((d[o + 3] as u32) << 24);
+    assert!(word(0) == 0x4161_5252 && word(484) == 0x6141_7272 && word(508) == 0xAA55_0000);
+    assert!(word(488) == free.unwrap_or(0xFFFF_FFFF));
+    assert!(word(492) == next.unwrap_or(0xFFFF_FFFF));
+    let k: usize = kani::any();
+    kani::assume((k >= 4 && k < 484) || (k >= 496 && k < 508));
+    assert!(d[k] == 0);
+    dev.pos = 0;
+    let back = FsInfoSector::deserialize(&mut dev);
+    match back {
+        Ok(b) => assert!(b.free_cluster_count == free && b.next_free_cluster == next && !b.dirty),
+        Err(_) => assert!(false),
+    }
+    kani::cover!(free.is_none() && next.is_some());
+}
+
+/// C07: FS-info parsing of ARBITRARY sector bytes never panics; it is rejected iff a signature is wrong; reserved
+/// hint values 0/1 and the "unknown" value 0xFFFFFFFF are dropped; validate_and_fix keeps only in-range values.
+#[kani::proof]
+#[kani::unwind(514)]
+fn fsinfo_parse_total() {
+    let mut data = [0u8; 512];
+    let lead: u32 = kani::any();
+    let struc: u32 = kani::any();
+    let trail: u32 = kani::any();
+    let free: u32 = kani::any();
+    let next: u32 = kani::any();
+    let filler: u8 = kani::any();
+    data[100] = filler; data[500] = filler;
+    data[0..4].copy_from_slice(&lead.to_le_bytes());
+    data[484..488].copy_from_slice(&struc.to_le_bytes());
+    data[488..492].copy_from_slice(&free.to_le_bytes());
+    data[492..496].copy_from_slice(&next.to_le_bytes());
+    data[508..512].copy_from_slice(&trail.to_le_bytes());
+    let mut dev = TotDev::<512>::new(data);
+    let r = FsInfoSector::deserialize(&mut dev);
+    let sig_ok = lead == 0x4161_5252 && struc == 0x6141_7272 && trail == 0xAA55_0000;
+    match r {
+        Ok(mut s) => {
+            assert!(sig_ok);
+            assert!(s.free_cluster_count == if free == 0xFFFF_FFFF { None } else { Some(free) });
+            assert!(s.next_free_cluster == if next == 0xFFFF_FFFF || next < 2 { None } else { Some(next) });
+            let total: u32 = kani::any();
+            kani::assume(total >= 1 && total <= 0x0FFF_FFF4);
+            s.validate_and_fix(total);
+            if let Some(n) = s.free_cluster_count { assert!(n <= total && n == free); }
+            if let Some(n) = s.next_free_cluster { assert!(n >= 2 && n <= total + 2 && n == next); }
+            if free <= total { assert!(s.free_cluster_count == Some(free)); }
+            kani::cover!(s.free_cluster_count.is_none() && free != 0xFFFF_FFFF);
+            kani::cover!(s.next_free_cluster == Some(total + 2));
+        }
+        Err(Error::CorruptedFileSystem) => assert!(!sig_ok),
+        Err(_) => assert!(false),
+    }
+    assert!(dev.writes == 0);
+}
+
+// ------------------------------------------------------------------------------------------- DiskSlice (C10, C11)
+
+/// C10/C11: a DiskSlice write is replicated to exactly `mirrors` consecutive copies at begin+offset+i*size, clipped
+/// to the slice; nothing else is written; the cursor advances by the clipped length.
+#[kani::proof]
+#[kani::unwind(5)]
+fn diskslice_mirror_write() {
+    let begin: u64 = kani::any();
+    let size: u64 = kani::any();
+    kani::assume(begin <= (1u64 << 42) && size >= 1 && size <= (1u64 << 41));
+    let mirrors: u8 = kani::any();
+    kani::assume(mirrors >= 1 && mirrors <= 3);
+    let mut dev = LogDev::new(u64::MAX);
+    let off: u64 = kani::any();
+    kani::assume(off <= size);
+    let len: usize = kani::any();
+    kani::assume(len <= 8);
+    let buf: [u8; 8] = kani::any();
+    let n = {
+        let mut sl = DiskSlice::<&mut LogDev, LogDev>::new(begin, size, mirrors, &mut dev);
+        assert!(matches!(sl.seek(SeekFrom::Start(off)), Ok(p) if p == off));
+        let n = match sl.write(&buf[..len]) { Ok(n) => n, Err(_) => { assert!(false); 0 } };
+        assert!(sl.abs_pos() == begin + off + n as u64);
+        n
+    };
+    let clipped = core::cmp::min(len as u64, size - off);
+    assert!(n as u64 == clipped);
+    if clipped == 0 {
+        assert!(dev.nw == 0);
+    } else {
+        assert!(dev.nw == mirrors as usize && !dev.overflow);
+        let i: usize = kani::any();
+        kani::assume(i < mirrors as usize);
+        assert!(dev.w_off[i] == begin + off + i as u64 * size && dev.w_len[i] == clipped && dev.w_first[i] == buf[0]);
+    }
+    kani::cover!(clipped < len as u64 && clipped > 0);
+    kani::cover!(mirrors == 3 && clipped == 8);
+}
+
+/// C11: DiskSlice reads and seeks never leave [begin, begin+size]; seeking past the end or before 0 is InvalidInput.
+#[kani::proof]
+#[kani::unwind(5)]
+fn diskslice_read_seek_bounds() {
+    let begin: u64 = kani::any();
+    let size: u64 = kani::any();
+    kani::assume(begin <= (1u64 << 42) && size <= (1u64 << 42));
+    let mut dev = LogDev::new(u64::MAX);
+    let mut sl = DiskSlice::<&mut LogDev, LogDev>::new(begin, size, 1, &mut dev);
+    let off0: u64 = kani::any();
+    kani::assume(off0 <= size);
+    sl.offset = off0;
+    let kind: u8 = kani::any();
+    let x: i64 = kani::any();
+    let pos = match kind % 3 { 0 => SeekFrom::Start(x as u64), 1 => SeekFrom::Current(x), _ => SeekFrom::End(x) };
+    let target: i128 = match kind % 3 { 0 => (x as u64) as i128, 1 => off0 as i128 + x as i128, _ => size as i128 + x as i128 };
+    match sl.seek(pos) {
+        Ok(p) => { assert!(target >= 0 && target <= size as i128 && p as i128 == target && sl.offset == p); }
+        Err(Error::InvalidInput) => { assert!(target < 0 || target > size as i128); assert!(sl.offset == off0); }
+        Err(_) => assert!(false),
+    }
+    let len: usize = kani::any();
+    kani::assume(len <= 4);
+    let mut buf = [0u8; 4];
+    let o = sl.offset;
+    match sl.read(&mut buf[..len]) {
+        Ok(n) => { assert!(n as u64 == core::cmp::min(len as u64, size - o)); assert!(sl.offset == o + n as u64 && sl.offset <= size); }
+        Err(_) => assert!(false),
+    }
+    drop(sl);
+    assert!(dev.r_off == begin + o && dev.r_off + dev.r_len <= begin + size && dev.nw == 0);
+    kani::cover!(kind % 3 == 2 && x < 0);
+}
+
+/// C08/C10: table selection. With mirroring on, one table write goes to all `fats` copies starting at the first
+/// table; with mirroring off only the active copy (low four bits of the flags) is written.
+#[kani::proof]
+#[kani::unwind(6)]
+fn fat_slice_select() {
+    let mut bpb = crate::boot_sector::verif::any_bpb();
+    kani::assume(bpb.bytes_per_sector == 512 || bpb.bytes_per_sector == 4096);
+    kani::assume(bpb.fats >= 1 && bpb.fats <= 3);
+    kani::assume(bpb.sectors_per_fat() >= 1);
+    // validated volumes keep all tables inside the 32-bit sector range (checked by C07's harnesses)
+    kani::assume(u64::from(bpb.reserved_sectors) + u64::from(bpb.fats) * u64::from(bpb.sectors_per_fat()) <= u64::from(u32::MAX));
+    if !bpb.mirroring_enabled() { kani::assume(bpb.active_fat() < u16::from(bpb.fats)); } // documented meaning of the field
+    bpb.reserved_0 = [0; 12];
+    let mut dev = LogDev::new(u64::MAX);
+    {
+        let mut sl = fat_slice::<LogDev, &mut LogDev>(&mut dev, &bpb);
+        assert!(sl.write(&[0x5A]).is_ok());
+    }
+    let bps = bpb.bytes_per_sector as u64;
+    let spf = bpb.sectors_per_fat() as u64;
+    let res = bpb.reserved_sectors as u64;
+    if bpb.extended_flags & 0x80 == 0 {
+        assert!(dev.nw == bpb.fats as usize);
+        let i: usize = kani::any();
+        kani::assume(i < bpb.fats as usize);
+        assert!(dev.w_off[i] == (res + i as u64 * spf) * bps && dev.w_len[i] == 1);
+    } else {
+        let active = (bpb.extended_flags & 0x0F) as u64;
+        assert!(dev.nw == 1 && dev.w_off[0] == (res + active * spf) * bps);
+        kani::cover!(active == 2);
+    }
+    kani::cover!(bpb.extended_flags & 0x80 == 0 && bpb.fats == 3);
+    kani::cover!(bpb.is_fat32() && spf > 0x0010_0000);
+}
+
+// ------------------------------------------------------------------------------------------- dirty flag (C11, C12, C13)
+
+fn any_flags() -> FsStatusFlags { FsStatusFlags { dirty: kani::any(), io_error: kani::any() } }
+
+/// C12/C11/C13: set_dirty_flag writes at most ONE byte, at 0x25 (FAT12/16) or 0x41 (FAT32); the value keeps the
+/// mount-time dirty/error bits and adds the dirty bit; nothing is written when the on-disk byte already has it;
+/// set_dirty_flag(false) restores the mount-time flags.
+#[kani::proof]
+#[kani::unwind(4)]
+fn set_dirty_step() {
+    let ft = any_ft();
+    let mut g = Geo::small(ft, 6);
+    g.status = kani::any();
+    let mount = FsStatusFlags::decode(g.status);
+    // invariant: the last byte written is the mount flags, possibly with dirty added
+    let cur = FsStatusFlags { dirty: kani::any(), io_error: mount.io_error };
+    kani::assume(cur.dirty || !mount.dirty);
+    let fs = core::mem::ManuallyDrop::new(mk_fs(LogDev::new(g.limit()), &g, crate::time::NullTimeProvider::new(), false, FsInfoSector::default(), cur));
+    let want: bool = kani::any();
+    assert!(fs.set_dirty_flag(want).is_ok());
+    let d = fs.disk.borrow();
+    let new = fs.current_status_flags.get();
+    let target = FsStatusFlags { dirty: mount.dirty || want, io_error: mount.io_error };
+    assert!(new == target);
+    if target == cur {
+        assert!(d.nw == 0);
+    } else {
+        assert!(d.nw == 1 && d.w_len[0] == 1);
+        assert!(d.w_off[0] == if ft == FatType::Fat32 { 0x41 } else { 0x25 });
+        assert!(d.w_first[0] & 1 == target.dirty as u8 && (d.w_first[0] >> 1) & 1 == target.io_error as u8);
+        // bits that were set at mount time are never cleared (all eight bits of the byte)
+        assert!(d.w_first[0] & g.status == g.status);
+        assert!(d.w_first[0] & !1 == g.status & !1);
+    }
+    kani::cover!(d.nw == 1 && want);
+    kani::cover!(d.nw == 1 && !want);
+    kani::cover!(d.nw == 0 && want);
+}
+
+/// C12: a clean unmount restores the status byte to its mount-time value (all eight bits).
+#[kani::proof]
+#[kani::unwind(4)]
+fn unmount_restores_status() {
+    let ft = any_ft();
+    let mut g = Geo::small(ft, 6);
+    g.status = kani::any();
+    let mount = FsStatusFlags::decode(g.status);
+    let cur = FsStatusFlags { dirty: true, io_error: mount.io_error };
+    let fs = core::mem::ManuallyDrop::new(mk_fs(LogDev::new(g.limit()), &g, crate::time::NullTimeProvider::new(), false, FsInfoSector::default(), cur));
+    assert!(fs.unmount_internal().is_ok());
+    let d = fs.disk.borrow();
+    if mount.dirty {
+        assert!(d.nw == 0);   // was dirty at mount: stays dirty
+    } else {
+        assert!(d.nw == 1 && d.w_first[0] == g.status);
+    }
+    kani::cover!(mount.dirty);
+    kani::cover!(!mount.dirty && mount.io_error);
+    kani::cover!(!mount.dirty && g.status & 0xFC != 0);
+}
+
+/// C12: every write that goes through the FS adapter (FAT and fixed-root updates) leaves the on-disk dirty bit set
+/// when it returns.
+#[kani::proof]
+#[kani::unwind(4)]
+fn adapter_write_sets_dirty() {
+    let ft = any_ft();
+    let mut g = Geo::small(ft, 6);
+    g.status = kani::any();
+    let mount = FsStatusFlags::decode(g.status);
+    let cur = FsStatusFlags { dirty: kani::any(), io_error: mount.io_error };
+    kani::assume(cur.dirty || !mount.dirty);
+    let fs = core::mem::ManuallyDrop::new(mk_fs(LogDev::new(g.limit()), &g, crate::time::NullTimeProvider::new(), false, FsInfoSector::default(), cur));
+    let len: usize = kani::any();
+    kani::assume(len <= 4);
+    let buf = [7u8; 4];
+    let mut io = FsIoAdapter { fs: &*fs };
+    let pos: u64 = kani::any();
+    kani::assume(pos < g.limit());
+    assert!(io.seek(SeekFrom::Start(pos)).is_ok());
+    let r = io.write(&buf[..len]);
+    assert!(matches!(r, Ok(n) if n == len));
+    let d = fs.disk.borrow();
+    if len > 0 {
+        assert!(fs.current_status_flags.get().dirty);
+        if !cur.dirty {
+            // the status byte was written in this very call
+            assert!(d.nw == 2 && d.w_len[1] == 1 && d.w_first[1] & 1 == 1);
+            assert!(d.w_off[1] == if ft == FatType::Fat32 { 0x41 } else { 0x25 });
+        } else {
+            assert!(d.nw == 1);
+        }
+        assert!(d.w_off[0] == pos && d.w_len[0] == len as u64);
+    } else {
+        assert!(fs.current_status_flags.get() == cur);
+    }
+    kani::cover!(len > 0 && !cur.dirty);
+}
+
+/// C12: read_status_flags reports dirty when the boot-sector byte says so or when the FAT16/32 entry-1 bit is clear.
+#[kani::proof]
+#[kani::unwind(6)]
+fn read_status_flags_reports_dirty() {
+    let ft = any_ft();
+    let mut g = Geo::small(ft, 6);
+    g.status = kani::any();
+    let mut dev = win_for(&g);
+    dev.fat0 = kani::any();
+    let fat0 = dev.fat0;
+    let fs = core::mem::ManuallyDrop::new(mk_fs(dev, &g, crate::time::NullTimeProvider::new(), false, FsInfoSector::default(), FsStatusFlags::decode(g.status)));
+    let r = fs.read_status_flags();
+    let f = match r { Ok(f) => f, Err(_) => { assert!(false); return; } };
+    let fat_dirty = match ft {
+        FatType::Fat12 => false,
+        FatType::Fat16 => spec::raw16(&fat0, 1) & 0x8000 == 0,
+        FatType::Fat32 => spec::raw32_full(&fat0, 1) & 0x0800_0000 == 0,
+    };
+    assert!(f.dirty() == ((g.status & 1 != 0) || fat_dirty));
+    let d = fs.disk.borrow();
+    assert!(!d.oob && d.total_writes == 0);
+    kani::cover!(f.dirty() && g.status & 1 == 0);
+    kani::cover!(!f.dirty());
+}
+
+// ------------------------------------------------------------------------------------------- accounting (C05, C10, C11, C13)
+
+/// Concrete 8-entry tables used by the FileSystem-level ("glue") harnesses, chosen by a symbolic selector:
+/// 0: chain 2->3->5, 4 used, 6 and 7 free   1: same but 7 used   2: volume full   3: only 2->3->5 and 4 used, hint region free
+pub(crate) fn sample_table(ft: FatType, variant: u8) -> [u8; FATW] {
+    let mut t = crate::table::verif::fault_table(ft);
+    if variant == 1 || variant == 2 { crate::table::verif::mark_used(ft, &mut t, 7); }
+    if variant == 2 { crate::table::verif::mark_used(ft, &mut t, 6); }
+    t
+}
+
+fn fs_alloc_check(ft: FatType, mode: u8, variant: u8, hint: Option<u32>, has_prev: bool, zero: bool) {
+    let total: u32 = 6;
+    let mut g = Geo::small(ft, total);
+    // mode 0: mirroring on; 1/2: mirroring off, active copy 0/1
+    if mode > 0 { g.ext_flags = 0x80 | (mode as u16 - 1); }
+    let act = if mode == 2 { 1 } else { 0 };
+    let mut dev = win_for(&g);
+    // mirroring: both copies equal; otherwise the inactive copy is deliberately different (a full table)
+    dev.fat0 = if mode == 2 { sample_table(ft, 2) } else { sample_table(ft, variant) };
+    dev.fat1 = if mode == 1 { sample_table(ft, 2) } else { sample_table(ft, variant) };
+    let old_act = if act == 0 { dev.fat0 } else { dev.fat1 };
+    let old_other = if act == 0 { dev.fat1 } else { dev.fat0 };
+    let n = total + 2;
+    let free_before = spec::count_free(w(ft), &old_act, n);
+    let has_count: bool = kani::any();
+    let info = FsInfoSector { free_cluster_count: if has_count { Some(free_before) } else { None }, next_free_cluster: hint, dirty: kani::any() };
+    let fs = core::mem::ManuallyDrop::new(mk_fs(dev, &g, crate::time::NullTimeProvider::new(), false, info, FsStatusFlags::decode(0)));
+    let prev = if has_prev { Some(5) } else { None };
+    let r = fs.alloc_cluster(prev, zero);
+    let d = fs.disk.borrow();
+    assert!(!d.oob);
+    let info2 = fs.fs_info.borrow();
+    match r {
+        Ok(c) => {
+            let new_act = if act == 0 { d.fat0 } else { d.fat1 };
+            let new_other = if act == 0 { d.fat1 } else { d.fat0 };
+            assert!(c >= 2 && c < n && spec::raw(w(ft), &old_act, c) == 0);
+            assert!(spec::count_free(w(ft), &new_act, n) + 1 == free_before);
+            // cached count stays exact, hint stays in [2, total+2]
+            if has_count { assert!(info2.free_cluster_count == Some(free_before - 1) && info2.dirty); } else { assert!(info2.free_cluster_count.is_none()); }
+            assert!(matches!(info2.next_free_cluster, Some(h) if h == c + 1 && h >= 2 && h <= total + 2));
+            // table copies: identical after if mirroring, the inactive copy untouched otherwise
+            if mode == 0 { assert!(d.fat0 == d.fat1); } else { assert!(new_other == old_other); }
+            if has_prev { assert!(spec::raw(w(ft), &new_act, 5) == c); }
+            // zeroing covers exactly the new cluster; no other non-table write except the status byte
+            let base = g.cluster_off(c);
+            let cs = g.cluster_size() as u64;
+            assert!(!d.overflow);
+            let mut i = 0;
+            let mut zeroed = 0u64;
+            while i < d.nw {
+                if d.w_off[i] == 0x25 || d.w_off[i] == 0x41 { assert!(d.w_len[i] == 1 && d.w_first[i] & 1 == 1); }
+                else { assert!(zero && d.w_off[i] == base + zeroed && d.w_first[i] == 0); zeroed += d.w_len[i]; }
+                i += 1;
+            }
+            assert!(zeroed == if zero { cs } else { 0 });
+            assert!(fs.current_status_flags.get().dirty);
+            kani::cover!(has_count);
+            kani::cover!(!has_count);
+        }
+        Err(Error::NotEnoughSpace) => {
+            assert!(free_before == 0);
+            assert!(d.fat0 == (if act == 0 { old_act } else { old_other }) && d.fat1 == (if act == 0 { old_other } else { old_act }) && d.nw == 0);
+            assert!(info2.free_cluster_count == if has_count { Some(0) } else { None });
+            kani::cover!(true);
+        }
+        Err(_) => assert!(false),
+    }
+}
+/// C05/C10/C11/C12: FileSystem::alloc_cluster through the real FAT slice ("glue" level: one harness per concrete
+/// configuration of table contents / mirroring mode / hint / predecessor / zeroing, with the cached counters and
+/// latches symbolic; the fully symbolic table is decided by table::verif::alloc*): cached free count stays exact,
+/// hint in range, all FAT copies stay identical (mirroring) or only the active one changes, zeroing hits exactly the
+/// new cluster, the dirty bit is set; NotEnoughSpace only on a full table and then nothing changes.
+macro_rules! fs_alloc_case {
+    ($name:ident, $ft:expr, $mode:expr, $variant:expr, $hint:expr, $prev:expr, $zero:expr) => {
+        #[kani::proof]
+        #[kani::unwind(40)]
+        fn $name() { fs_alloc_check($ft, $mode, $variant, $hint, $prev, $zero); }
+    };
+}
+macro_rules! fs_alloc_cases {
+    ($ft:expr, $m0z:ident, $m0:ident, $m1z:ident, $m2:ident, $h2:ident, $hwrap:ident, $hend:ident, $full:ident) => {
+        fs_alloc_case!($m0z, $ft, 0, 0, None, true, true);
+        fs_alloc_case!($m0, $ft, 0, 0, None, false, false);
+        fs_alloc_case!($m1z, $ft, 1, 0, None, true, true);
+        fs_alloc_case!($m2, $ft, 2, 0, None, true, false);
+        fs_alloc_case!($h2, $ft, 0, 0, Some(2), false, false);
+        fs_alloc_case!($hwrap, $ft, 0, 1, Some(7), true, false);
+        fs_alloc_case!($hend, $ft, 0, 0, Some(8), false, true);
+        fs_alloc_case!($full, $ft, 0, 2, Some(3), true, true);
+    };
+}
+fs_alloc_cases!(FatType::Fat12, fs_alloc12_mirror_zero, fs_alloc12_mirror, fs_alloc12_active0_zero, fs_alloc12_active1, fs_alloc12_hint2, fs_alloc12_hint_wrap, fs_alloc12_hint_end, fs_alloc12_full);
+fs_alloc_cases!(FatType::Fat16, fs_alloc16_mirror_zero, fs_alloc16_mirror, fs_alloc16_active0_zero, fs_alloc16_active1, fs_alloc16_hint2, fs_alloc16_hint_wrap, fs_alloc16_hint_end, fs_alloc16_full);
+fs_alloc_cases!(FatType::Fat32, fs_alloc32_mirror_zero, fs_alloc32_mirror, fs_alloc32_active0_zero, fs_alloc32_active1, fs_alloc32_hint2, fs_alloc32_hint_wrap, fs_alloc32_hint_end, fs_alloc32_full);
+
+fn fs_free_check(ft: FatType, variant: u8, truncate: bool, c: u32) {
+    let total: u32 = 6;
+    let g = Geo::small(ft, total);
+    let mut dev = win_for(&g);
+    dev.fat0 = sample_table(ft, variant);
+    dev.fat1 = dev.fat0;
+    let old = dev.fat0;
+    let n = total + 2;
+    // free: chain heads 2 (length 3) and 4 (length 1); truncate: any allocated cluster
+    let expect_freed = if truncate { match c { 2 => 2, 3 => 1, _ => 0 } } else if c == 2 { 3 } else { 1 };
+    let free_before = spec::count_free(w(ft), &old, n);
+    let has_count: bool = kani::any();
+    let info = FsInfoSector { free_cluster_count: if has_count { Some(free_before) } else { None }, next_free_cluster: None, dirty: false };
+    let fs = core::mem::ManuallyDrop::new(mk_fs(dev, &g, crate::time::NullTimeProvider::new(), false, info, FsStatusFlags::decode(0)));
+    let r = if truncate { fs.truncate_cluster_chain(c) } else { fs.free_cluster_chain(c) };
+    assert!(r.is_ok());
+    let d = fs.disk.borrow();
+    assert!(!d.oob && d.fat0 == d.fat1);
+    let after = spec::count_free(w(ft), &d.fat0, n);
+    assert!(after == free_before + expect_freed);
+    let info2 = fs.fs_info.borrow();
+    assert!(info2.free_cluster_count == if has_count { Some(after) } else { None });
+    // only the status byte is written outside the tables
+    assert!(d.nw <= 1);
+    if d.nw == 1 { assert!(d.w_len[0] == 1 && (d.w_off[0] == 0x25 || d.w_off[0] == 0x41)); }
+    if d.fat_writes > 0 { assert!(fs.current_status_flags.get().dirty); }
+    kani::cover!(has_count);
+    kani::cover!(!has_count);
+}
+/// C05/C10/C12: freeing / truncating a chain through the FileSystem keeps the cached count exact, the copies
+/// identical and sets the dirty bit (glue level, see fs_alloc*).
+macro_rules! fs_free_case {
+    ($name:ident, $ft:expr, $variant:expr, $trunc:expr, $c:expr) => {
+        #[kani::proof]
+        #[kani::unwind(40)]
+        fn $name() { fs_free_check($ft, $variant, $trunc, $c); }
+    };
+}
+fs_free_case!(fs_free12_chain, FatType::Fat12, 0, false, 2);
+fs_free_case!(fs_free12_single, FatType::Fat12, 1, false, 4);
+fs_free_case!(fs_truncate12_head, FatType::Fat12, 0, true, 2);
+fs_free_case!(fs_truncate12_mid, FatType::Fat12, 2, true, 3);
+fs_free_case!(fs_truncate12_tail, FatType::Fat12, 0, true, 5);
+fs_free_case!(fs_free16_chain, FatType::Fat16, 0, false, 2);
+fs_free_case!(fs_free16_single, FatType::Fat16, 1, false, 4);
+fs_free_case!(fs_truncate16_head, FatType::Fat16, 0, true, 2);
+fs_free_case!(fs_truncate16_mid, FatType::Fat16, 2, true, 3);
+fs_free_case!(fs_truncate16_tail, FatType::Fat16, 0, true, 5);
+fs_free_case!(fs_free32_chain, FatType::Fat32, 0, false, 2);
+fs_free_case!(fs_free32_single, FatType::Fat32, 1, false, 4);
+fs_free_case!(fs_truncate32_head, FatType::Fat32, 0, true, 2);
+fs_free_case!(fs_truncate32_mid, FatType::Fat32, 2, true, 3);
+fs_free_case!(fs_truncate32_tail, FatType::Fat32, 0, true, 5);
+
+/// C05/C13: stats() returns the cached count when present (no device access at all); otherwise it recounts from the
+/// table (equal to the number of zero entries), caches it, and writes nothing (glue level, see fs_alloc*).
+fn stats_check(ft: FatType, variant: u8) {
+    let total: u32 = 6;
+    let g = Geo::small(ft, total);
+    let mut dev = win_for(&g);
+    dev.fat0 = sample_table(ft, variant);
+    dev.fat1 = dev.fat0;
+    let old = dev.fat0;
+    let has_count: bool = kani::any();
+    let cached_val: u32 = kani::any();
+    kani::assume(cached_val <= total);
+    let was_dirty: bool = kani::any();
+    let info = FsInfoSector { free_cluster_count: if has_count { Some(cached_val) } else { None }, next_free_cluster: None, dirty: was_dirty };
+    let fs = core::mem::ManuallyDrop::new(mk_fs(dev, &g, crate::time::NullTimeProvider::new(), false, info, FsStatusFlags::decode(0)));
+    let st = match fs.stats() { Ok(s) => s, Err(_) => { assert!(false); return; } };
+    let d = fs.disk.borrow();
+    assert!(!d.oob && d.total_writes == 0 && d.flushes == 0);
+    assert!(st.total_clusters() == total && st.cluster_size() == 512);
+    if has_count {
+        assert!(st.free_clusters() == cached_val);
+        assert!(fs.fs_info.borrow().dirty == was_dirty);
+    } else {
+        assert!(st.free_clusters() == spec::count_free(w(ft), &old, total + 2));
+        assert!(fs.fs_info.borrow().free_cluster_count == Some(st.free_clusters()));
+    }
+    assert!(!fs.current_status_flags.get().dirty);
+    kani::cover!(!has_count);
+    kani::cover!(has_count);
+}
+
+macro_rules! stats_case {
+    ($name:ident, $ft:expr, $variant:expr) => {
+        #[kani::proof]
+        #[kani::unwind(40)]
+        fn $name() { stats_check($ft, $variant); }
+    };
+}
+stats_case!(stats12_some_free, FatType::Fat12, 0);
+stats_case!(stats12_full, FatType::Fat12, 2);
+stats_case!(stats16_some_free, FatType::Fat16, 1);
+stats_case!(stats16_full, FatType::Fat16, 2);
+stats_case!(stats32_some_free, FatType::Fat32, 0);
+stats_case!(stats32_full, FatType::Fat32, 2);
+
+/// C05/C04/C11/C13: flush_fs_info writes the cached counters to sector fs_info_sector of a FAT32 volume exactly
+/// when they are dirty (512 bytes at fs_info_sector*bps and nothing else), never on FAT12/16, and clears the latch.
+#[kani::proof]
+#[kani::unwind(8)]
+fn fsinfo_flush_region() {
+    let ft = any_ft();
+    let mut g = Geo::small(ft, 6);
+    let bps_sel: bool = kani::any();
+    g.bps = if bps_sel { 512 } else { 4096 };
+    g.fs_info_sector = kani::any();
+    if ft == FatType::Fat32 { kani::assume(g.fs_info_sector >= 1 && g.fs_info_sector < g.reserved); }
+    let info = any_fs_info(6);
+    let (free, next, dirty) = (info.free_cluster_count, info.next_free_cluster, info.dirty);
+    let mut dev = LogDev::new(g.limit());
+    let base = g.fs_info_sector as u64 * g.bps as u64;
+    dev.watch_addr = kani::any();
+    kani::assume(dev.watch_addr >= base + 488 && dev.watch_addr < base + 496);
+    let wa = dev.watch_addr;
+    dev.watch_val = kani::any();
+    let wv0 = dev.watch_val;
+    let fs = core::mem::ManuallyDrop::new(mk_fs(dev, &g, crate::time::NullTimeProvider::new(), false, info, FsStatusFlags::decode(0)));
+    assert!(fs.flush_fs_info().is_ok());
+    let d = fs.disk.borrow();
+    if ft == FatType::Fat32 && dirty {
+        assert!(!d.overflow && d.nw == 7);
+        assert!(d.w_off[0] == base && d.w_off[6] + d.w_len[6] == base + 512 && d.max_end == base + 512);
+        let words = [free.unwrap_or(0xFFFF_FFFF), next.unwrap_or(0xFFFF_FFFF)];
+        let idx = (wa - (base + 488)) as usize;
+        assert!(d.watch_val == words[idx / 4].to_le_bytes()[idx % 4]);
+        assert!(!fs.fs_info.borrow().dirty);
+    } else {
+        assert!(d.nw == 0 && d.watch_val == wv0);
+        assert!(fs.fs_info.borrow().dirty == dirty);
+    }
+    kani::cover!(ft == FatType::Fat32 && dirty && free.is_none());
+    kani::cover!(ft == FatType::Fat16 && dirty);
+}
+
+/// C13: from a state where nothing is pending (FS-info clean, status byte as at mount) unmount writes nothing and
+/// keeps that state; with only the FS-info cache dirty on FAT32 it writes just that sector.
+#[kani::proof]
+#[kani::unwind(8)]
+fn unmount_readonly_session_writes_nothing() {
+    let ft = any_ft();
+    let mut g = Geo::small(ft, 6);
+    g.status = kani::any();
+    let mut info = any_fs_info(6);
+    info.dirty = false;
+    let fs = core::mem::ManuallyDrop::new(mk_fs(LogDev::new(g.limit()), &g, crate::time::NullTimeProvider::new(), false, info, FsStatusFlags::decode(g.status)));
+    assert!(fs.unmount_internal().is_ok());
+    let d = fs.disk.borrow();
+    assert!(d.total_writes == 0);
+    assert!(fs.current_status_flags.get() == FsStatusFlags::decode(g.status));
+    kani::cover!(g.status & 1 == 1);
+}
+
+/// must-fail twin: claims unmount never writes even after a modification.
+#[kani::proof]
+#[kani::unwind(8)]
+fn twin_unmount_never_writes() {
+    let g = Geo::small(FatType::Fat16, 6);
+    let fs = core::mem::ManuallyDrop::new(mk_fs(LogDev::new(g.limit()), &g, crate::time::NullTimeProvider::new(), false, FsInfoSector::default(),
+                                                FsStatusFlags { dirty: true, io_error: false }));
+    let _ = fs.unmount_internal();
+    assert!(fs.disk.borrow().total_writes == 0);
+}
+
+// ------------------------------------------------------------------------------------------- offsets (C11, C20)
+
+/// C11/C20: FileSystem::offset_from_cluster equals the u64 reference for every cluster of every accepted geometry
+/// and the whole cluster lies inside the volume.
+#[kani::proof]
+#[kani::unwind(4)]
+fn fs_offset_from_cluster() {
+    let bpb = crate::boot_sector::verif::any_bpb();
+    kani::assume(crate::boot_sector::verif::bpb_is_valid(&bpb));
+    let fs = core::mem::ManuallyDrop::new(FileSystem {
+        disk: RefCell::new(LogDev::new(u64::MAX)),
+        options: FsOptions { update_accessed_date: false, oem_cp_converter: LossyOemCpConverter::new(), time_provider: crate::time::NullTimeProvider::new(), strict: true },
+        fat_type: FatType::from_clusters(bpb.total_clusters()),
+        first_data_sector: bpb.first_data_sector(),
+        root_dir_sectors: bpb.root_dir_sectors(),
+        total_clusters: bpb.total_clusters(),
+        bpb: bpb.clone(),
+        fs_info: RefCell::new(FsInfoSector::default()),
+        current_status_flags: Cell::new(FsStatusFlags::decode(0)),
+    });
+    let c: u32 = kani::any();
+    kani::assume(c >= 2 && c - 2 < fs.total_clusters);
+    let off = fs.offset_from_cluster(c);
+    let g = spec::geo(bpb.bytes_per_sector, bpb.sectors_per_cluster, bpb.reserved_sectors, bpb.fats, bpb.root_entries,
+                      bpb.total_sectors_16, bpb.total_sectors_32, bpb.sectors_per_fat_16, bpb.sectors_per_fat_32);
+    assert!(off == (g.first_data + (c as u64 - 2) * g.spc) * g.bps);
+    assert!(off + fs.cluster_size() as u64 <= g.total * g.bps);
+    assert!(fs.bytes_from_clusters(c - 2) == (c as u64 - 2) * g.spc * g.bps);
+    kani::cover!(off >= (1u64 << 40));
+    kani::cover!(c - 2 == fs.total_clusters - 1 && off > (1u64 << 32));
+}
+
